@@ -166,6 +166,15 @@ def run(rep, tier, rng):
             variants = [[f for f in forms], ["(+ 1 2)", d + " " + bad, use, "(list 1 2)"], ["(+ 1 2) " + d + " " + bad, use + " (list 1 2)"]] \
                 if False else [[f for f in forms] for _ in range(3)]
             sess.append((forms, variants, [["(+ 1 2)"], [d, bad], [use], ["(list 1 2)"]]))
+    # on every run: one text submitted several times while the macro (or procedure) it uses is RE-DEFINED in between - every
+    # submission is read and expanded anew
+    for forms in [
+        ["(define-syntax inc-zz (syntax-rules () ((inc-zz e) (+ e 1))))", "(inc-zz 5)", "(define-syntax inc-zz (syntax-rules () ((inc-zz e) (+ e 2))))", "(inc-zz 5)", "(inc-zz 5)"],
+        ["(define (tw-zz q) (* 2 q))", "(tw-zz 5)", "(define-syntax tw-zz (syntax-rules () ((tw-zz e) (* 3 e))))", "(tw-zz 5)"],
+        ["(define kk 1)", "(+ kk 1)", "(set! kk 10)", "(+ kk 1)", "(define (kk) 0)", "(+ kk 1)"],
+        ["(define-syntax sw-zz (syntax-rules () ((sw-zz a b) (list b a))))", "(sw-zz 1 2)", "(define-syntax sw-zz (syntax-rules () ((sw-zz a b) (list a b))))", "(sw-zz 1 2)"],
+    ]:
+        sess.append((forms, [[x for x in forms] for _ in range(3)], [[x] for x in forms]))
     # on every run: blanks that matter directly before a line break (compared with sequential evaluation of the same forms)
     for f in ['(define ts "ab  \ncd")', '(display "x \n y")', '(list "tab\t\nq" 1)', "(quote |p \nq|)", "(eqv? #\\space #\\ \n)",
               '(if (eqv? #\\ \n #\\space) "yes" "no")']:
